@@ -62,7 +62,7 @@ def failing_specs(draw, cfg, kinds=("absurd", "gamma-raises", "corrupt", "bad-op
     beta = cfg["beta"]
     kind = draw(st.sampled_from(list(kinds)))
     op = draw(st.sampled_from(["rate", "rate", "rate", "predict_win", "predict_draw", "predict_rank"]))
-    g = draw(gen.games(cfg=cfg, max_teams=4, max_size=3, enc_kinds=["int", "float", "scores", "omitted"]))
+    g = draw(gen.games(cfg=cfg, max_teams=4, max_size=3, enc_kinds=["int", "float", "scores", "omitted"], extras=False))
     spec = {"op": "fail", "kind": kind, "call_op": op, "teams": g["teams"], "call": g["call"]}
     n = len(g["teams"])
     if kind == "absurd":
